@@ -185,7 +185,7 @@ def run_structs(args):
                                                               compressed=env['compressed'], variant_of_subset=env['vmap'])
             except codec.RefError:
                 return {'skip': 1}
-            if notes:
+            if notes and not env.get('ambiguous_ok'):
                 return {'skip': 1}
             return {'r': compare_paths(b), 'bytes': b, 'links': len(subs[0].links)}
 
@@ -197,13 +197,17 @@ def run_structs(args):
             p.outcome((name.split('|')[0], res['links'], env['compressed']))
             if res['r']:
                 parts = name.split('|')
-                p.violation('%s|bitmap|%s' % (res['r'][0], parts[1].split('.')[0]),
+                under = '|under-' + name.rsplit('+', 1)[1] if '+' in name else ''
+                p.violation('%s|bitmap|%s%s' % (res['r'][0], parts[1].split('.')[0], under),
                             {'struct': [name, descs, queues, free], 'env': env, 'choices': ctx.vector()}, res['r'][1],
                             observed=res['bytes'])
         tree.explore(body, 0, on_leaf, st)
     p.n['nodes'] += st.nodes
     p.n['edges'] += st.edges
     return p
+
+
+M21_ = 31021
 
 
 def under_operator_structs(level):
@@ -221,6 +225,19 @@ def under_operator_structs(level):
             base_len = {'b4': 4, 'b2': 2, 'bstr': 2}[name.split('|')[0]]
             out.append(('%s|%s+%s-late' % (name.split('|')[0], name.split('|')[1], oname),
                         descs[:base_len] + [o_open] + descs[base_len:] + [o_close], queues, free))
+    # an associated field (204) in force at the markers, and a new reference value (203) that was defined for a base
+    # element and CANCELLED again before the markers (the marker then takes the table reference)
+    for name, descs, queues, free in BM.chain1(level):
+        if not name.startswith(('b4|', 'b2|')):
+            continue
+        base_len = {'b4': 4, 'b2': 2}[name.split('|')[0]]
+        out.append(('%s|%s+204' % (name.split('|')[0], name.split('|')[1]), [204003, M21_] + descs + [204000], queues, free))
+        out.append(('%s|%s+204-late' % (name.split('|')[0], name.split('|')[1]),
+                    descs[:base_len] + [204003, M21_] + descs[base_len:] + [204000], queues, free))
+        out.append(('%s|%s+203-cancelled' % (name.split('|')[0], name.split('|')[1]),
+                    [203012, BM.NS, 203255] + descs[:base_len] + [203000] + descs[base_len:], queues, free))
+        out.append(('%s|%s+203-in-force' % (name.split('|')[0], name.split('|')[1]),
+                    [203012, BM.NS, 203255] + descs + [203000], queues, free))
     return out
 
 
@@ -536,8 +553,8 @@ def main(tier, seed):
                                ('bitmap-in-replication-c2',
                                 list(BM.wrapped(BM.chain1(0), 2, True)) + list(BM.wrapped(BM.chain1(0), 2, False, delayed=True)),
                                 dict(nsub=2, compressed=True, vmap=[0, 0])),
-                               ('bitmap-under-operator-u1', under_operator_structs(2), dict(nsub=1, compressed=False, vmap=[0])),
-                               ('bitmap-under-operator-c2', under_operator_structs(2), dict(nsub=2, compressed=True, vmap=[0, 0]))):
+                               ('bitmap-under-operator-u1', under_operator_structs(2), dict(nsub=1, compressed=False, vmap=[0], ambiguous_ok=True)),
+                               ('bitmap-under-operator-c2', under_operator_structs(2), dict(nsub=2, compressed=True, vmap=[0, 0], ambiguous_ok=True))):
         p = merge_all(run_shards(run_structs, [(s, env) for s in split(structs, 64)]))
         rep.add_part(name, p, bounds=dict(structures=len(structs), **env))
     from mc.gen import freeform as F
